@@ -223,6 +223,32 @@ func largeRT[C any](t *testing.T, rec *vt.Recorder, combos [][2]int, mk func(t *
 				m, _ := rgen.GenMsg(t, o)
 				c := mk(t, zone, m)
 				rec.Eval(fmt.Sprintf("large:%s>=%d", kinds[what], n))
+				// what the message really contains (a size class that does not reach its threshold tests nothing)
+				counts := map[string]int{"entities": len(m.Entities)}
+				for i := range m.Entities {
+					e := &m.Entities[i]
+					switch {
+					case e.TU != nil:
+						counts["trip-updates"]++
+						counts["stop-time-updates"] += len(e.TU.STUs)
+					case e.VP != nil:
+						counts["vehicle-positions"]++
+						if e.VP.Vehicle == nil {
+							counts["vehicles-without-identity"]++
+						}
+					case e.AL != nil:
+						counts["alerts"]++
+						counts["selectors"] += len(e.AL.Informed)
+					}
+				}
+				for k, v := range counts {
+					for _, th := range []int{65536, 16384, 8192} {
+						if v > th {
+							rec.Class(fmt.Sprintf("large:reached:%s>%d", k, th))
+							break
+						}
+					}
+				}
 				rec.NontrivialCase(vt.Fingerprint([]any{zone, what, n, len(m.Entities)}), func() any {
 					return map[string]any{"zone": zone, "entities": len(m.Entities), "size": n, "of": kinds[what]}
 				})
@@ -236,7 +262,7 @@ func largeRT[C any](t *testing.T, rec *vt.Recorder, combos [][2]int, mk func(t *
 
 // TestC04Large: links between 9000 / 70000 trips and as many vehicles, plus a third as many vehicles without any identity.
 func TestC04Large(t *testing.T) {
-	largeRT(t, c04Rec, [][2]int{{0, 9000}, {0, 70000}}, func(t *rapid.T, zone string, m *rgen.Msg) CaseRT {
+	largeRT(t, c04Rec, [][2]int{{0, 9000}, {0, 100000}}, func(t *rapid.T, zone string, m *rgen.Msg) CaseRT {
 		c := CaseRT{Zone: zone, Msg: m}
 		c.Env = genEnv(t)
 		return c
